@@ -367,6 +367,8 @@ class Evaluator:
             return Term.atom("tuple(" + ",".join(self.ev(e).key() for e in node.elts) + ")")
         if isinstance(node, ast.List):
             return Term.atom("[" + ",".join(self.ev(e).key() for e in node.elts) + "]")
+        if isinstance(node, ast.Dict) and all(isinstance(k, ast.Constant) and isinstance(k.value, str) for k in node.keys):
+            return Term.atom("{" + ",".join(f"{k.value}:{self.ev(v).key()}" for k, v in sorted(zip(node.keys, node.values), key=lambda kv: kv[0].value)) + "}")
         if isinstance(node, (ast.Compare, ast.BoolOp)):
             return Term.atom("cond(" + self.cond(node) + ")")
         if isinstance(node, (ast.ListComp, ast.GeneratorExp)) and len(node.generators) == 1 and not node.generators[0].ifs \
@@ -430,6 +432,9 @@ class Evaluator:
             base = self.ev(f.value).key()
             recv = base if all(x.isidentifier() for x in base.replace("~", "").split(".")) else f"({base})"
             return Term.atom(f"sub({recv}.groups(),{node.args[0].value - 1})")
+        if isinstance(f, ast.Name) and f.id in ("Container", "dict") and not node.args and node.keywords and all(k.arg for k in node.keywords):
+            body = "{" + ",".join(f"{k.arg}:{self.ev(k.value).key()}" for k in sorted(node.keywords, key=lambda k: k.arg)) + "}"
+            return Term.atom(body if f.id == "dict" else f"Container({body})")
         kwd = {k.arg: self.ev(k.value).key() for k in node.keywords if k.arg}
         pos = [a.key() for a in args]
         cname = f.id if isinstance(f, ast.Name) else (f.attr if isinstance(f, ast.Attribute) else None)
